@@ -24,7 +24,7 @@ RULE = ('cases are 1-4 exchanges; each exchange encrypts one generated message (
 TIERS = {"quick": {"runs": 6000, "budget_s": 90}, "thorough": {"runs": 150000, "budget_s": 1500}}
 PROBES = ('wrong_credential_on_live_object', 'fault_raised', 'fault_same_plaintext', 'fault_not_encrypted_refusal', 'wrong_pass_raised', 'non_recipient_raised',
           'splice_two_messages', 'sweep_bits', 'producer_ref', 'producer_pgpy', 'multi_recipient')
-FAULTS = ('flip_esk', 'flip_esk', 'flip_version', 'flip_body', 'flip_body', 'flip_mdc', 'flip_header', 'truncate_raw', 'truncate_reframed',
+FAULTS = ('flip_esk', 'flip_esk', 'flip_version', 'flip_body', 'flip_body', 'flip_mdc', 'flip_header', 'flip_prefix_repeat', 'truncate_raw', 'truncate_reframed',
           'extend_inside', 'extend_after', 'swap_blocks', 'splice_container', 'splice_esk', 'mdc_swap', 'drop_esk', 'dup_esk',
           'reorder_esk', 'second_container', 'inject_plain', 'wrong_pass', 'non_recipient')
 # not generated: re-labelling the container as a legacy tag-9 packet ("downgrade").  PGPy, like RFC 4880, accepts
@@ -130,6 +130,9 @@ def apply_fault(enc, other, f, bs):
         return flip(cb, cb + 1)
     if k == 'flip_body':
         return flip(cb + 1, c1)
+    if k == 'flip_prefix_repeat':
+        # the two octets that repeat the end of the random prefix (the "quick check" of RFC 4880 5.7 / 5.13)
+        return flip(cb + 1 + bs, cb + 1 + bs + 2) if c1 - cb > bs + 3 else None
     if k == 'flip_mdc':
         return flip(max(cb + 1, c1 - 22), c1)
     if k == 'flip_header':
